@@ -1,4 +1,4 @@
 SPECIFICATION Spec
-INVARIANTS AtMostOnce RanOnWorker RunOrCancelOnce NoHang
+INVARIANTS AtMostOnce RanOnWorker RunOrCancelOnce NoHang AwNotForgotten
 PROPERTY Termination
 CHECK_DEADLOCK FALSE
